@@ -14,7 +14,8 @@ RULE = ("(lattice) complete enumeration of dt in 12 values (decimal literals, 1/
         "enumeration case = one (dt,start,form) with a block of 50 values of m, evaluations count lattice points. (public) "
         "Hypothesis-generated points, 50% drawn from the lattice points whose floating-point quotient falls below m, m<=40, "
         "run through Tempo, MeanFieldTempo, PtTempo, compute_dynamics, compute_dynamics_with_field, "
-        "compute_gradient_and_dynamics (record_all True/False) and PtTebd; Tempo and MeanFieldTempo also reach the final end time "
+        "compute_gradient_and_dynamics (record_all True/False) and PtTebd (start_step 0, 3, 7; results['time'], single- and two-site "
+        "dynamics, norm / bond-dimension lists aligned); Tempo and MeanFieldTempo also reach the final end time "
         "after 0-2 earlier compute() calls (end_time = start_time, less than one step, mid-way). (containers) generated add() histories in any "
         "order with repeated times on Dynamics / MeanFieldDynamics: axis sorted, every state/field stays with its time. Oracle R-times: n = whole steps that fit with an "
         "end on the grid up to rounding included (exact rational arithmetic + 1e-9 step tolerance), len = n+1, times[k] = "
@@ -268,12 +269,22 @@ def run_public(case):
         chain.add_site_hamiltonian(0, 0.5 * sx)
         chain.add_nn_hamiltonian(0, 0.3 * sz, sz)
         steps = min(n, 6)
+        # start_step != 0: the computation is labelled as steps s0 .. s0+steps of a longer one; start_time is the time of
+        # step s0, so the axis is start_time + k dt, k = 0..steps, whatever s0 is
+        s0 = [0, 0, 3, 7][(m + case["dt_index"]) % 4]
+        out.label("start_step=0" if s0 == 0 else "start_step>0")
         teb = oqupy.PtTebd(oqupy.AugmentedMPS([rho0, rho0]), chain, [None, None],
-                           oqupy.PtTebdParameters(dt=dt, epsrel=1e-8, order=2), start_time=float(start),
-                           dynamics_sites=[0])
-        r = teb.compute(steps, progress_type="silent")
+                           oqupy.PtTebdParameters(dt=dt, epsrel=1e-8, order=2), start_time=float(start), start_step=s0,
+                           dynamics_sites=[0, (0, 1)])
+        r = teb.compute(s0 + steps, progress_type="silent")
         _check_axis(out, "pt-tebd", r["time"], start, dt, steps)
         _check_axis(out, "pt-tebd/dynamics", r["dynamics"][0].times, start, dt, steps)
+        _check_axis(out, "pt-tebd/dynamics-pair", r["dynamics"][(0, 1)].times, start, dt, steps)
+        for key in ("norm", "bond_dimensions"):
+            if len(r[key]) != len(r["time"]):
+                out.fail("pt-tebd/aligned-lengths", f"{len(r[key])} entries of results[{key!r}] for {len(r['time'])} times")
+        r2 = teb.get_results()
+        _check_axis(out, "pt-tebd/get_results", r2["time"], start, dt, steps)
     return out
 
 
